@@ -287,6 +287,8 @@ func mkDelete(m *mModel, table string, p seqPred) stmt {
 type worldOpt struct {
 	Leaf, Internal, Cache int // 0 = real values
 	RealClock             bool
+	AutoTick              bool // timer flush after every successful statement
+	TolerateCacheFull     bool // ErrLRUCacheFull ends the run quietly (C16 precondition)
 }
 
 type panicErr struct {
@@ -307,6 +309,7 @@ type world struct {
 	dead    bool
 	// table of an in-flight CREATE TABLE that the catalog check must tolerate
 	ignoreTable string
+	cacheFull   bool // a statement hit ErrLRUCacheFull (only with TolerateCacheFull)
 }
 
 var (
@@ -377,10 +380,25 @@ func (w *world) exec(q string) error {
 func (w *world) do(s stmt) bool {
 	w.c.Logf("%s", clip(s.SQL, 160))
 	if err := w.exec(s.SQL); err != nil {
+		if w.opt.TolerateCacheFull && strings.Contains(err.Error(), "cache is full") {
+			w.cacheFull = true
+			return false
+		}
 		w.failErr("statement-failed", s.SQL, err)
 		return false
 	}
 	s.apply(w.model, -1)
+	if w.opt.AutoTick {
+		var terr error
+		if perr := guard(func() error { terr = w.store().Tick(); return nil }); perr != nil {
+			w.failErr("flush-failed", "timer flush", perr)
+			return false
+		}
+		if terr != nil {
+			w.c.Fail("flush-failed", "timer flush: %v", terr)
+			return false
+		}
+	}
 	return true
 }
 
@@ -847,6 +865,16 @@ func (w *world) alphabet(o alphaOpt) []stmt {
 		}
 	}
 	return out
+}
+
+// pickAt returns the i-th enabled statement (same bookkeeping as pick).
+func (w *world) pickAt(o alphaOpt, i int) stmt {
+	a := w.alphabet(o)
+	s := a[i]
+	if s.Kind == "update" {
+		w.model.Gen += 2
+	}
+	return s
 }
 
 // pick chooses one enabled statement.
